@@ -5,11 +5,12 @@ import re
 import vlib
 
 C08_DIR = os.path.dirname(os.path.abspath(__file__))
+last_skeleton = 0
 
 
 def build_driver():
     return vlib.build_ocaml_driver("c08_driver", os.path.join(vlib.COQ, "extracted"),
-                                   os.path.join(C08_DIR, "driver", "c08_driver.ml"), only=["c08_model"])
+                                   os.path.join(C08_DIR, "driver", "c08_driver.ml"), only=["c08_model", "c09_model"])
 
 
 def build_harness(ctx, cmd):
@@ -35,6 +36,9 @@ def run_driver(exe, cases, timeout=2400):
     """Returns (compared, mismatches:int, by_kind:{what: [lines]}, raw log)."""
     rc, log = vlib.sh([exe, cases], timeout=timeout)
     m = re.search(r"CASES (\d+) COMPARED (\d+) MISMATCHES (\d+)", log)
+    global last_skeleton
+    ms = re.search(r"SKELETON (\d+)", log)
+    last_skeleton = int(ms.group(1)) if ms else 0
     by = {}
     for line in log.split("\n"):
         if line.startswith("MISMATCH "):
